@@ -159,6 +159,7 @@ def run_job(job, io):
 
     n_steps = 4 + tape.draw(27, 'n-steps')
     steps = 0
+    e = None
     for _ in range(n_steps):
         kind = tape.weighted([(5, 'create'), (4, 'mutate_source'), (4, 'mutate_handout'), (5, 'operand'), (2, 'registry'),
                               (1, 'drop_tree'), (2, 'gc'), (1, 'cycle'), (2, 'catalog')], 'step')
@@ -465,12 +466,13 @@ def run_job(job, io):
                 outcome = 'raised:' + type(ex).__name__
             else:
                 raise
+        touched_route = e.route if e is not None else '-'  # NB: never call dir()/locals() here: the frame's locals snapshot would keep trees alive
         # locals of a step must not keep trees / leaves / treespecs alive into the next step
         tree = before = leaves = spec = src = e = o = snap_tree = snap_otree = target = conts = a = b = None
         lv = lv2 = sp = sp2 = leaves_arg = leaves_copy = inner = col = ch = ents = ps = tr = sn = refs = node = box = f = None
         oplog.append('%s:%s:%s' % (kind, detail, outcome))
         check_all(site)
-        keys.add('%s|%s|%s' % (kind, detail, outcome))
+        keys.add('%s|%s|%s|%s' % (touched_route, kind, detail, outcome))
         if violations:
             break
     # every treespec must die with the pool (no hidden owners): weakrefs to specs not possible; check gc count stability
